@@ -53,6 +53,10 @@ def one_history(rng, covord, spord, kind='bool'):
     h += ['moc m f=f1', 'mocread r=r f=f1 covord=%d' % covord, 'info r', 'valid r', 'state r', 'state m']
     if rng.random() < 0.3:
         h += ['mocread r=r2 f=f1 covord=0', 'info r2', 'valid r2']
+    if spord > covord and rng.random() < 0.4:
+        # read back with a FINER coverage resolution than the writing map had: cells coarser than the reader's
+        # coverage pixels (a completely valid coverage pixel of the writer) span several of them (seeded C17h)
+        h += ['mocread r=r3 f=f1 covord=%d' % rng.randint(covord + 1, spord), 'info r3', 'valid r3', 'nvalid r3']
     return h
 
 
